@@ -6,6 +6,7 @@ from scoda.settings.settings import NOTE_LOWER_BOUND as LB, NOTE_UPPER_BOUND as 
 TONIC = {"C": 0, "G": 7, "D": 2, "A": 9, "E": 4, "B": 11, "F_S": 6, "C_S": 1, "F": 5, "B_B": 10, "E_B": 3, "A_B": 8, "D_B": 1, "G_B": 6, "C_B": 11}
 
 
+@guarded
 def check(r, items, t, as_bar=False, keyname=None):
     inp = {"items": items, "t": t, "bar": as_bar, "key": keyname}
     s = rseq(items)
